@@ -1,6 +1,6 @@
 (* C11 — the generic lemmas instantiated with the tables of the Go toolchain (no hypothesis left). *)
 From Coq Require Import List Bool NArith.
-From C11 Require Import Model ProofsUtf8 ProofsLower ProofsText ProofsTables.
+From C11 Require Import Model ProofsUtf8 ProofsLower ProofsText ProofsPath ProofsTables.
 Open Scope N_scope.
 
 Definition go_lower_sides_agree := lower_sides_agree go_to_lower go_to_lower_ascii go_to_lower_idem.
@@ -24,6 +24,22 @@ Lemma text_nonvacuous :
   fst (text_tokenize go_is_letter go_is_number go_to_lower c 0 v) =
     [[107; 107; 95; 195; 160; 98]; [217; 163; 120; 42; 121]] /\
   has_rune WildcardRune (indexed_part TyText c 0 v) = false.
+Proof. vm_compute. repeat split; reflexivity. Qed.
+
+Definition go_ptok := ptok go_to_lower.
+Definition go_path_consistent := path_consistent go_to_lower go_to_lower_ascii go_to_lower_idem.
+
+(* non-vacuity of the path theorem: "/Var/L\u00d6G/\u0130x", case-insensitive: the in-place lower-casing of the
+   first prefixes runs before the later ones are cut; the last component holds a width-changing rune *)
+Lemma path_nonvacuous :
+  let c := ICfg false false 72 32768 in
+  let v := [47; 86; 97; 114; 47; 76; 195; 150; 71; 47; 196; 176; 120] in
+  skipped TyPath c 0 v = false /\
+  path_prefixes [] (indexed_part TyPath c 0 v) = [[47; 86; 97; 114]; [47; 86; 97; 114; 47; 76; 195; 150; 71]] /\
+  fst (path_tokenize go_to_lower c 0 v) =
+    [[47; 118; 97; 114]; [47; 118; 97; 114; 47; 108; 195; 182; 103];
+     [47; 118; 97; 114; 47; 108; 195; 182; 103; 47; 105; 120]] /\
+  has_rune WildcardRune v = false.
 Proof. vm_compute. repeat split; reflexivity. Qed.
 
 (* defect #13 (known finding cs-invalid-utf8): case-sensitive, value "ab\xffcd" *)
